@@ -107,11 +107,11 @@ Step(e) ==
         IN Common(e, bad, r2, held \cup {c}, bd2, owed, notified, sl2)
     [] e.op = "get" ->
         LET hit == e.res = "hit"
-            bytesOk == (e.via = "export") \/ ~hit \/ e.b = rec[e.c].b
+            bytesOk == (e.via = "export") \/ e.b = -8 \/ ~hit \/ e.b = rec[e.c].b      \* b = -8: bytes not inspected by the driver
             \* a peer request may be refused while the chunk is live (e.g. remaining life below the
             \* minimum TTL): the statement only forbids serving it at or after the deadline
             heldFor == IF e.via = "peerreq" THEN FALSE ELSE e.c \in held
-            bad == (IF ReadOk(rec, e.t, heldFor, e.c, hit, IF e.via = "export" /\ hit THEN rec[e.c].b ELSE e.b) /\ bytesOk THEN {}
+            bad == (IF ReadOk(rec, e.t, heldFor, e.c, hit, IF (e.via = "export" \/ e.b = -8) /\ hit THEN rec[e.c].b ELSE e.b) /\ bytesOk THEN {}
                     ELSE {IF hit THEN "C01.read-served-dead-or-wrong/" \o e.via ELSE "C01.read-missed-live/" \o e.via})
                    \cup DerivedClauses(e.proj, bound)
         IN Common(e, bad, rec, held, bound, owed, notified, slack)
